@@ -367,6 +367,10 @@ class World:
             return SV(const(consts[name]))
         # module-level function
         for n in self.src.tree(file).body:
+            if isinstance(n, ast.Assign) and len(n.targets) == 1 and isinstance(n.targets[0], ast.Name) \
+                    and n.targets[0].id == name and isinstance(n.value, ast.JoinedStr):
+                # a module-level f-string constant: some fixed string (its text is not modelled)
+                return SV(V.StrV(z3.String(f'modstr!{file}!{name}')), 'str')
             if isinstance(n, ast.FunctionDef) and n.name == name:
                 return PV('func', (file, name))
             if isinstance(n, ast.ClassDef) and n.name == name:
@@ -846,7 +850,9 @@ class World:
                 self.assume_quantified_lemma(it, lem, env, ctx, entry_heap, entry_ghost, returned=True)
             return res
         exc = it.fresh('exc', IntS)
-        excv = SV(V.ObjV(exc))
+        excv = SV(V.ObjV(exc), c.get('raises_type'))
+        if c.get('raises_type'):
+            it.assume_axiom(CLSOF(exc) == self.cids.ids[c['raises_type']])
         it.assume(self.cids.sub(CLSOF(exc), 'Exception'))
         env['exc'] = SV(V.ClsV(CLSOF(exc)))
         env['excval'] = excv
